@@ -155,4 +155,28 @@ theorem insert_one_position_final (ev : Bytes → Bytes → Bool) (lower : Strin
   · exact key .append (by simp) (by decide) (by simp [Visitor.new, Rio.Consts.filterActionReplace, Rio.Consts.filterActionAppend, Rio.Consts.filterActionPrepend])
   · exact key .prepend (by simp) (by decide) (by simp [Visitor.new, Rio.Consts.filterActionReplace, Rio.Consts.filterActionAppend, Rio.Consts.filterActionPrepend])
 
+/-! ### non-vacuity (review D, item 6) -/
+
+/-- `<div><p>a</p><br></div>` in two chunks (cut inside `</p>`) -/
+def insChunks : List Bytes :=
+  [[60, 100, 105, 118, 62, 60, 112, 62, 97, 60, 47], [112, 62, 60, 98, 114, 62, 60, 47, 100, 105, 118, 62]]
+
+/-- `insert_one_position_final` and `insert_one_tight_final` instantiated (prepend_child of `$` into `div`, no selector,
+`content-type: text/html`): every hypothesis is a decidable fact -/
+example :=
+  insert_one_position_final evalStandIn id [("content-type", "text/html")] Rio.Consts.filterActionPrepend (Or.inr rfl)
+    [100, 105, 118] [] none (Or.inl rfl) [36] (by decide) (by decide) (by unfold V; decide) insChunks (by unfold Rio.C03.ValidBody; decide +kernel)
+
+example :=
+  insert_one_tight_final evalStandIn id [("content-type", "text/html")] Rio.Consts.filterActionAppend (Or.inl rfl)
+    [100, 105, 118] [[112]] (some [42]) [36] (by decide) (by decide) (by decide) (by unfold V; decide) insChunks
+    (by unfold Rio.C03.ValidBody; decide +kernel)
+
+/-- the evaluated run: the copy sits immediately after the opener `<div>`, every token is in place -/
+theorem insert_position_run :
+    (Chain.new noCodec id [.html Rio.Consts.filterActionPrepend [[100, 105, 118]] none [36]] [("content-type", "text/html")]).run
+        htmlTokenize evalStandIn noCodec insChunks =
+      [60, 100, 105, 118, 62] ++ [36] ++ [60, 112, 62, 97, 60, 47, 112, 62, 60, 98, 114, 62, 60, 47, 100, 105, 118, 62] := by
+  decide +kernel
+
 end Rio.C04
